@@ -131,8 +131,20 @@ impl Prop for LayoutProp {
         gen_plan(src, &self.cfg)
     }
     fn check(&self, plan: &Plan, lane: usize, st: &mut Stats) -> Result<(), Fail> {
+        // the print function is called for about one plan in 64 (it is the same formatter; stdout
+        // is silenced around the call)
+        let call_print = self.capture_debug && {
+            use std::hash::{Hash, Hasher};
+            let mut h = std::collections::hash_map::DefaultHasher::new();
+            plan.hash(&mut h);
+            h.finish() % 64 == 0
+        };
+        if call_print {
+            st.class("print_par_seq_called");
+        }
         let opts = BuildOpts {
             capture_debug: self.capture_debug,
+            call_print,
             ..BuildOpts::default()
         };
         let built = build_plan(plan, pool(lane, 1), &opts)
